@@ -23,7 +23,8 @@ KV_TEXT = {
     "keytarget": "target = x", "keytargetdbg": "target:? = x", "refprefix": "referrer = x", "refprefixnum": "ref_count = 3",
     "refprefixdbg": "refs:? = x",
     # values that contain a string literal after something else (a byte string, a comparison)
-    "bytestr": '{k} = b"x"', "cmpstr": '{k} = z == "root"',
+    "bytestr": '{k} = b"x"', "cmpstr": '{k} = z == "root"', "charquote": "{k} = z.find('\"').is_some()",
+    "rawstrval": '{k} = r#"a"b"#',
     "dbg": "{k}:? = x", "debug": "{k}:debug = x", "disp": "{k}:% = x", "display": "{k}:display = x",
     "shortdbg": "x:?", "err": "{k}:err = e", "sval": "{k}:sval = x", "serde": "{k}:serde = x",
     "ref=7": "ref = 7", "ref=0": "ref = 0", "ref=max": "ref = 4294967295", "ref=07": "ref = 07", "ref=x": "ref = x",
@@ -34,7 +35,7 @@ KV_TEXT = {
 KV_NOCOMPILE = {"err", "sval", "serde", "ref=over", "ref=07", "ref=neg", "bytestr"}      # b"x": [u8; 1] is not a log value
 
 MSG_TEXT = {
-    "plain": "s{u} hello", "leadspace": "  s{u} padded", "slashes": "// s{u} not a comment",
+    "plain": "s{u} hello", "leadspace": "  s{u} padded", "endbackslash": "s{u} drive C:\\\\", "onlybackslash": "\\\\", "slashes": "// s{u} not a comment",
     "blockcm": "/* s{u} */ tail", "placeholders": "s{u} a={{}} b={{:?}}", "escquote": 's{u} say \\"hi\\" there',
     "unicode": "s{u} h\u00e9llo \u4e16\u754c \U0001F980", "unicodefirst": "\u00e9 s{u}", "reflater": "s{u} see [ref: 5] later",
     "empty": "", "validref": "[ref: 5] s{u}", "validref0": "[ref: 0] s{u}", "validrefmax": "[ref: 4294967295] s{u}",
@@ -55,6 +56,8 @@ CONTEXT = {
     # backslash, a byte character, a lifetime
     "afterrawstring": ('    let _r = r#"say "hi" there"#; ', ";"), "afterrawbackslash": ('    let _w = r"C:\\dir\\"; ', ";"),
     "afterbytechar": ("    let _b = b'\"'; ", ";"), "afterlifetime": ("    let _l: &'static str = \"s\"; ", ";"),
+    # character literals written with multi-character escapes next to a quote character
+    "afterhexchar": ("    let _q = ['\\x41','\"']; ", ";"), "afterunicodechar": ("    let _v = ('\\u{22}', '\"', '\\u{1F980}'); ", ";"),
     # a string literal containing comment openers earlier on the same line
     "afterurl": ('    let _u = "http://example.org/*x"; ', ";"),
     # an already referenced statement (in both styles) with multi-byte text earlier on the same line
@@ -118,7 +121,9 @@ def render_case(case, uid, macroset=None):
         allmods.update([mv] if isinstance(mv, str) else mv)
     others = sorted(allmods - set(mods)) or ["other"]
     name = {"bare": macro, "qualified": mod + "::" + macro, "crossmod": others[uid % len(others)] + "::" + macro, "unconfigured": "debug", "prefix": macro + "_extra",
-            "suffix": "my_" + macro, "othermod": "other::" + macro, "modplus1": "x" + mod + "::" + macro, "modminus1": mod[1:] + "::" + macro, "submod": mod + "::sub::" + macro,
+            "suffix": "my_" + macro, "othermod": "other::" + macro, "modplus1": "x" + mod + "::" + macro, "modminus1": mod[1:] + "::" + macro,
+            # identifier characters outside ASCII directly in front of a configured name / in the module path
+            "unicodeprefix": "\u65e5\u5fd7" + macro, "unicodemod": "\u0436\u0443\u0440\u043d\u0430\u043b::" + macro, "submod": mod + "::sub::" + macro,
             "shortmod": "l::" + macro, "noliteral": macro, "noargs": macro, "linecomment": macro,
             "blockcomment": macro, "doccomment": macro, "instring": macro, "instringopen": macro, "rawstring": macro, "starcomment": macro,
             "nestedcomment": macro, "nestedcomment3": macro, "bannercomment": macro, "upper": macro.upper(),
